@@ -109,7 +109,8 @@ Theorem wire_domain_of_input_l : forall inp rows,
   decode fixed inp = Some rows -> input_wire_ok inp = true -> wire_domain rows.
 Proof.
   intros inp rows Hd Hok sr p Hin Hp. destruct inp as [b|nd es]; cbn [decode input_wire_ok] in *.
-  - unfold otlp_decode in Hd. destruct (mapM (otlp_res fixed) b) as [rss|] eqn:Em; [|discriminate].
+  - unfold otlp_decode in Hd. destruct (otlp_utf8_ok b); [|discriminate]. unfold otlp_decode_core in Hd.
+    destruct (mapM (otlp_res fixed) b) as [rss|] eqn:Em; [|discriminate].
     cbn [option_map] in Hd. inversion Hd; subst rows. apply in_concat in Hin. destruct Hin as (rs & Hrs & Hin).
     destruct (mapM_in _ _ _ _ Em Hrs) as (r & Hr & Hres).
     rewrite forallb_forall in Hok. specialize (Hok r Hr). apply andb_true_iff in Hok. destruct Hok as [Hra Hss].
@@ -130,3 +131,76 @@ Qed.
 
 Example ex_input_wire_ok : input_wire_ok ex_otlp = true /\ decode fixed ex_otlp <> None.
 Proof. split; [vm_compute; reflexivity|vm_compute; discriminate]. Qed.
+
+Local Open Scope list_scope.
+(* ------------------------------------------------------------------ every string of a stored OTLP span is UTF-8 *)
+Lemma get_attr_str_utf8 k (a : attrs) s : attrs_utf8 a = true -> get_attr k a = Some (AStr s) -> utf8_valid s = true.
+Proof.
+  unfold attrs_utf8. induction a as [|[k' v] a IH]; cbn [get_attr forallb fst snd]; [discriminate|].
+  intro H. apply andb_true_iff in H. destruct H as [H1 H2]. destruct (String.eqb k k').
+  - intro E. inversion E; subst v. apply andb_true_iff in H1. destruct H1 as [_ H1]. exact H1.
+  - apply IH. exact H2.
+Qed.
+Lemma last_str_utf8 names (a : attrs) : attrs_utf8 a = true -> utf8_valid (last_str names a) = true.
+Proof.
+  intro Ha. unfold last_str. assert (G : forall acc, utf8_valid acc = true ->
+    utf8_valid (fold_left (fun acc n => match get_attr n a with Some (AStr s) => s | _ => acc end) names acc) = true).
+  { induction names as [|n names IH]; intros acc Hacc; cbn [fold_left]; [exact Hacc|].
+    apply IH. destruct (get_attr n a) as [[s| | | | | | | |]|] eqn:E; try exact Hacc. apply (get_attr_str_utf8 n a s Ha E). }
+  apply G. reflexivity.
+Qed.
+Lemma populate_utf8 a : attrs_utf8 a = true -> attrs_utf8 (populate a) = true.
+Proof.
+  intro H.
+  assert (Hl : utf8_valid (local_name a) = true).
+  { unfold local_name. destruct (String.eqb _ ""); [reflexivity|apply last_str_utf8; exact H]. }
+  assert (Hr : utf8_valid (remote_name a) = true) by (apply last_str_utf8; exact H).
+  unfold populate, attrs_utf8 in *.
+  destruct (get_attr k_service a).
+  - destruct (get_attr k_remote a); [exact H|]. rewrite forallb_app, H. cbn [forallb fst snd aval_utf8 k_remote andb]. rewrite Hr. reflexivity.
+  - destruct (get_attr k_remote (a ++ [(k_service, AStr (local_name a))])).
+    + rewrite forallb_app, H. cbn [forallb fst snd aval_utf8 andb]. rewrite Hl. reflexivity.
+    + rewrite !forallb_app, H. cbn [forallb fst snd aval_utf8 andb]. rewrite Hl, Hr. reflexivity.
+Qed.
+Lemma otlp_span_utf8 ra s sr p : attrs_utf8 ra = true -> ospan_utf8 s = true ->
+  otlp_span fixed ra s = Some sr -> t_payload (fst sr) = POtlp p -> ospan_utf8 p = true.
+Proof.
+  intros Hra Hs Ho Hp. rewrite (otlp_span_payload ra s sr Ho) in Hp. inversion Hp; subst p.
+  unfold ospan_utf8 in *. cbn [with_attrs o_name o_attrs].
+  apply andb_true_iff in Hs. destruct Hs as [Hn Ha]. rewrite Hn. cbn [andb].
+  apply populate_utf8. unfold attrs_utf8 in *. rewrite forallb_app, Ha, Hra. reflexivity.
+Qed.
+
+(* Every string of every stored OTLP span is UTF-8: proto.Unmarshal refused the request otherwise, and the names the write path adds
+   (service.name, remoteService.name) are values of existing string attributes or the ASCII fallback.  The only failure proto.Marshal has for a
+   Span is a string that is not UTF-8, so the error branch after proto.Marshal in OTLPDecoder.Decode is never taken. *)
+Theorem stored_strings_are_utf8_l : forall b rows, decode fixed (InOtlp b) = Some rows ->
+  forall sr p, In sr rows -> t_payload (fst sr) = POtlp p -> ospan_utf8 p = true.
+Proof.
+  intros b rows Hd sr p Hin Hp. cbn [decode] in Hd. apply otlp_decode_some in Hd. destruct Hd as [Hd Hu].
+  unfold otlp_decode_core in Hd. destruct (mapM (otlp_res fixed) b) as [rss|] eqn:Em; [|discriminate].
+  cbn [option_map] in Hd. inversion Hd; subst rows. apply in_concat in Hin. destruct Hin as (rs & Hrs & Hin).
+  destruct (mapM_in _ _ _ _ Em Hrs) as (r & Hr & Hres).
+  unfold otlp_utf8_ok in Hu. rewrite forallb_forall in Hu. specialize (Hu r Hr). unfold ores_utf8 in Hu.
+  apply andb_true_iff in Hu. destruct Hu as [Hra Hss].
+  unfold otlp_res in Hres. cbn [fixed q_nil_resource negb] in Hres. rewrite orb_true_r in Hres.
+  destruct (mapM_in _ _ _ _ Hres Hin) as (s & Hs & Hspan).
+  rewrite forallb_forall in Hss. apply (otlp_span_utf8 (res_attrs r) s sr p Hra (Hss s Hs) Hspan Hp).
+Qed.
+Theorem non_utf8_refused_l : forall q b, otlp_utf8_ok b = false -> decode q (InOtlp b) = None.
+Proof. intros q b H. cbn [decode]. unfold otlp_decode. rewrite H. reflexivity. Qed.
+
+Example ex_utf8_valid :
+  map utf8_valid ["caf" ++ String (ascii_of_nat 195) (String (ascii_of_nat 169) ""); String (ascii_of_nat 195) "";
+                  String (ascii_of_nat 192) (String (ascii_of_nat 175) ""); String (ascii_of_nat 237) (String (ascii_of_nat 160) (String (ascii_of_nat 128) ""));
+                  String (ascii_of_nat 244) (String (ascii_of_nat 143) (String (ascii_of_nat 191) (String (ascii_of_nat 191) "")));
+                  String (ascii_of_nat 244) (String (ascii_of_nat 144) (String (ascii_of_nat 128) (String (ascii_of_nat 128) ""))); ""]%string
+  = [true; false; false; false; true; false; true].
+Proof. vm_compute. reflexivity. Qed.
+Definition ex_otlp_badutf8 : input :=
+  InOtlp [ {| r_has_res := true; r_attrs := [("service.name", AStr "cart")];
+              r_scopes := [[ {| o_trace := hx "a3a3a3a3a3a3a3a3a3a3a3a3a3a3a3a3"; o_span := hx "1313131313131313"; o_parent := "";
+                                o_name := "render"; o_start := 1727700000000001000; o_end := 1727700000000002000; o_kind := 2;
+                                o_attrs := [("k", AMap [("in", AStr (String (ascii_of_nat 255) ""))])] |} ]] |} ].
+Example ex_non_utf8_refused : decode fixed ex_otlp_badutf8 = None.
+Proof. vm_compute. reflexivity. Qed.
